@@ -186,6 +186,7 @@ def run_task(task):
         ins = set(tuple(x) for x in (declared_in or []))
         ins |= astutil.undefined_sigs(stms)
         ins |= set(tuple(x) for x in lifted)
+        ins |= astutil.underivable_sigs(stms, ins)
         inp_arg = sorted(ins)
     out_arg = task.get("out")
     if out_arg is None:
